@@ -578,14 +578,17 @@ func (*Parser).readJoinedFieldName
   loop 1 decreases len(p.lexer.input) - p.lexer.pos
 
 func (*Parser).parseJoin
-  props C11
+  props C11 C16
   option safety
   requires parOK(p) && stmt != nil
+  before stripAliasPrefix on-operands-are-stripped-of-the-stream-alias-and-of-this-joins-alias: $arg1 == stmt.SourceAlias && $arg2 == jc.Alias
+  before stripAliasPrefix a-join-written-without-alias-is-addressed-by-the-tables-own-name: aliasTok.Type != TokenAS && !(aliasTok.Type == TokenIdent && !isClauseBoundaryIdent(aliasTok.Value)) ==> jc.Alias == jc.Table
   modifies stmt.JoinConfigs, heap(Lexer.ch), heap(Lexer.pos), heap(Lexer.readPos), heap(Lexer.line), heap(Lexer.column), p.errorRecovery.errors
   ensures parOK(p) && errOK(result) && p.lexer.pos >= old(p.lexer.pos)
   loop 1 invariant parOK(p) && p.lexer.pos >= old(p.lexer.pos)
   loop 1 decreases len(p.lexer.input) - p.lexer.pos
   loop 2 invariant parOK(p) && p.lexer.pos > atloop(1, p.lexer.pos)
+  loop 2 invariant aliasTok.Type != TokenAS && !(aliasTok.Type == TokenIdent && !isClauseBoundaryIdent(aliasTok.Value)) ==> jc.Alias == jc.Table
   loop 2 decreases len(p.lexer.input) - p.lexer.pos
 
 func collapseSpacesOutsideQuotes
